@@ -188,3 +188,34 @@ def check_pastifier_remap(ix, rep, rule='R-REMAP'):
             rep.ok(rule, f.module.rel, f.qual, 'dispatch-every-call', 'every call rewrites the node for its own remaining look-ahead', f.node.lineno)
         n += 1
     return n
+
+
+def check_identity_keys(ix, rep, rule='R-STORE'):
+    """the result stores (ast.results, the update visitor's results, the pastifier's and the horizon's tables) are dictionaries keyed by the
+    node *object*.  That is one entry per node as long as nodes compare and hash by identity: a class on the MRO of a node class (the
+    Interval mix-in of the timed nodes included) that defines __eq__ or __hash__ merges the entries of different nodes that happen to
+    compare equal -- the value stored last is read back for both."""
+    n = 0
+    for nc in sorted(D.node_classes(ix), key=lambda c: c.name):
+        bad = None
+        for k in ix.mro(nc):
+            if not isinstance(k, ClassInfo):
+                continue
+            for m in ('__eq__', '__hash__', '__ne__', '__lt__', '__le__'):
+                if m in k.methods and m in ('__eq__', '__hash__'):
+                    bad = (k, m)
+            for st in k.node.body:
+                if isinstance(st, ast.Assign) and any(isinstance(t, ast.Name) and t.id in ('__eq__', '__hash__') for t in st.targets):
+                    bad = (k, st.targets[0].id)
+            decos = [ast.unparse(d) for d in k.node.decorator_list]
+            if any('dataclass' in d or 'total_ordering' in d for d in decos):
+                bad = (k, '@' + decos[0])
+        n += 1
+        if bad:
+            k, m = bad
+            rep.fail(rule, k.module.rel, nc.name, 'identity-key', '%s (on the MRO of node class %s) defines %s: node objects are the keys of ast.results / updateVisitor.results, and two '
+                     'different nodes that compare equal now share one entry -- get_value() of one returns the value of the other' % (k.name, nc.name, m),
+                     k.methods[m].node.lineno if m in k.methods else k.node.lineno)
+        else:
+            rep.ok(rule, nc.module.rel, nc.name, 'identity-key', 'no class on the MRO overrides equality or hashing', nc.node.lineno)
+    return n
